@@ -1,5 +1,6 @@
 """C06 preconditioned tasks.  Model: Feb/Model.v (check_preconds / launch / spawn) on top of the FEB word model."""
 from . import _feb_common as fc
+from . import _feb_micro3pre as mp     # extension K part 2: micro-step tier with a nascent waiter (M3)
 
 LEVEL = "proof"
 
@@ -24,7 +25,10 @@ def run(ctx):
                        "operations in random order; non-trivial = some task was parked and some task was launched")
     ctx.assumptions += ["return-value fill by the runtime wrapper (retmode 1) is replayed on 1x1 only (its completion is not observable "
                         "from outside); on multi-worker configurations the task body performs the writeEF itself (retmode 2)"]
+    mp.run_micro3pre(ctx, quick)       # extension K part 2 (theorems Properties/Properties_C06_micro.v + two-hold baton on feb.c)
 
 
 def replay(ctx, path):
+    if mp.is_replay(path):             # extension K part 2
+        return mp.replay_file(ctx, path)
     fc.replay_file(ctx, path)
